@@ -150,7 +150,7 @@ package dragonboat
 // expiry: every request that is timed out is removed in the same critical section
 //@ func (p *proposalShard) gcAt [C12]
 //@ noframe
-//@ requires p.wf() && held(p.mu) == 0
+//@ requires p.wf()
 //@ modifies held(p.mu), entries(p.pending), p.lastGcTime
 //@ ensures held(p.mu) == 0
 //@ ensures forall k uint64 :: k in p.pending ==> old(k in p.pending) && p.pending[k] == old(p.pending[k]) && len(p.pending[k].CompletedC) == old(len(p.pending[k].CompletedC))
@@ -235,7 +235,8 @@ package dragonboat
 //@ ensures old(p.pending) != nil && p.pending == nil ==> len(old(p.pending).CompletedC) == old(len(p.pending.CompletedC)) + 1
 
 //@ func (p *pendingConfigChange) gc [C12]
-//@ modifies held(p.mu), p.pending, chan(old(p.pending).CompletedC), old(p.pending).readyToRelease.val, p.lastGcTime
+//@ modifies held(p.mu), p.pending, chan(old(p.pending).CompletedC), old(p.pending).readyToRelease.val, p.lastGcTime, gGcCC
+//@ ghostset gGcCC := old(gGcCC) + 1
 //@ ensures p.pending != nil ==> p.pending == old(p.pending) && len(p.pending.CompletedC) == old(len(p.pending.CompletedC))
 //@ ensures old(p.pending) != nil && p.pending == nil ==> len(old(p.pending).CompletedC) == old(len(p.pending.CompletedC)) + 1
 
@@ -251,7 +252,8 @@ package dragonboat
 //@ ensures old(p.pending) != nil && p.pending == nil ==> len(old(p.pending).CompletedC) == old(len(p.pending.CompletedC)) + 1
 
 //@ func (p *pendingSnapshot) gc [C12]
-//@ modifies held(p.mu), p.pending, chan(old(p.pending).CompletedC), old(p.pending).readyToRelease.val, p.lastGcTime
+//@ modifies held(p.mu), p.pending, chan(old(p.pending).CompletedC), old(p.pending).readyToRelease.val, p.lastGcTime, gGcSS
+//@ ghostset gGcSS := old(gGcSS) + 1
 //@ ensures p.pending != nil ==> p.pending == old(p.pending) && len(p.pending.CompletedC) == old(len(p.pending.CompletedC))
 //@ ensures old(p.pending) != nil && p.pending == nil ==> len(old(p.pending).CompletedC) == old(len(p.pending.CompletedC)) + 1
 
@@ -596,8 +598,31 @@ package dragonboat
 //@ trusted starts a requested log compaction
 //@ func (n *node) handleLogQuery [C12]
 //@ trusted answers a queued log query
+// expiry is driven for ALL tables: once per tick of the replica every proposal shard, the config-change
+// slot and the snapshot slot get their expiry pass (gGc*: "the expiry pass of this table has run")
+//@ ghost var gGcShards int
+//@ ghost var gGcCC int
+//@ ghost var gGcSS int
+//@ func (p *proposalShard) gc [C12]
+//@ noframe
+//@ nobounds
+//@ requires p.wf()
+//@ modifies held(p.mu), entries(p.pending), p.lastGcTime, gGcShards
+//@ ensures p.wf()
+//@ ghostset gGcShards := old(gGcShards) + 1
+//@ func (p *pendingProposal) gc [C12]
+//@ noframe
+//@ nobounds
+//@ requires p.shardsOK() && (forall i int :: 0 <= i && i < len(p.shards) ==> p.shards[i].wf())
+//@ modifies gGcShards
+//@ ensures gGcShards == old(gGcShards) + len(p.shards)
+//@ loop 1 invariant i <= p.ps && gGcShards == old(gGcShards) + i && (forall j int :: 0 <= j && j < len(p.shards) ==> p.shards[j] != nil && p.shards[j].wf())
 //@ func (n *node) gc [C12]
-//@ trusted expiry of proposals, config changes and snapshot requests by the logical clock
+//@ noframe
+//@ nobounds
+//@ free requires n.pendingProposals.shardsOK() && (forall i int :: 0 <= i && i < len(n.pendingProposals.shards) ==> n.pendingProposals.shards[i].wf())
+//@ modifies gGcShards, gGcCC, gGcSS, n.gcTick
+//@ ensures old(n.gcTick) != n.currentTick ==> gGcShards == old(gGcShards) + len(n.pendingProposals.shards) && gGcCC == old(gGcCC) + 1 && gGcSS == old(gGcSS) + 1 && n.gcTick == n.currentTick
 //@ func (n *node) handleEvents [C12 C06]
 //@ noframe
 //@ nobounds
